@@ -84,9 +84,58 @@ fn check_at(l: &mut Local, a: &AltSpec, tab: &RuleTable, tz: TimeZoneRef<'_>, t:
     }
 }
 
+/// S(y) = E(y) in every year: the statement fixes neither "never" nor "always" daylight time (glibc reads such a
+/// rule as never, CPython's zoneinfo as always), but under either reading there is no instant where the answer
+/// changes, and what is reported is one complete half of the rule.
+fn sweep_degenerate(l: &mut Local, a: &AltSpec, tab: &RuleTable, y0: i64, years: i64, how: &'static str, tz: TimeZoneRef<'_>) -> u64 {
+    l.class("degenerate_rule_(S=E_every_year)");
+    let mut n = 0;
+    let mut first: Option<(bool, i64)> = None;
+    for y in y0..y0 + years {
+        let ny = cal::days_from_civil(y, 1, 1) * 86400;
+        let (s, e) = (tab.s(y), tab.e(y));
+        for inst in [s, e, ny, s / 2 + tab.s(y + 1) / 2] {
+            for d in [-1i64, 0, 1] {
+                let t = inst + d;
+                n += 1;
+                match facade::lookup(tz, t) {
+                    Ok(g) => {
+                        let half = if a.std.same_as(g) {
+                            false
+                        } else if a.dst.same_as(g) {
+                            true
+                        } else {
+                            l.violation("localtime(rule): the type reported is neither half of the rule", format!("find_local_time_type({}) on rule-only zone ({}) {}", t, how, a), format!("{} or {}", a.std, a.dst), format!("{}", TypeSpec::from_tz(g)));
+                            continue;
+                        };
+                        match first {
+                            None => first = Some((half, t)),
+                            Some((h0, t0)) if h0 != half => {
+                                l.violation(
+                                    "localtime(rule): the answer changes although start and end coincide in every year",
+                                    format!("find_local_time_type({}) on rule-only zone ({}) {}", t, how, a),
+                                    format!("the same half as at {} ({})", t0, if h0 { "dst" } else { "std" }),
+                                    format!("{}", TypeSpec::from_tz(g)),
+                                );
+                                return n;
+                            }
+                            _ => {}
+                        }
+                    }
+                    Err(e) => l.violation("localtime(rule): error inside the supported year range", format!("find_local_time_type({}) on rule-only zone ({}) {}", t, how, a), format!("{} or {}", a.std, a.dst), format!("Err({:?})", e)),
+                }
+            }
+        }
+    }
+    n
+}
+
 /// all instants of interest for one rule over `years` consecutive years starting at y0
 pub fn sweep_rule(l: &mut Local, a: &AltSpec, y0: i64, years: i64, how: &'static str, tz: TimeZoneRef<'_>) -> u64 {
     let tab = RuleTable::new(a, y0 - 4, y0 + years + 4);
+    if tab.class == RuleClass::Degenerate {
+        return sweep_degenerate(l, a, &tab, y0, years, how, tz);
+    }
     if !matches!(tab.class, RuleClass::North | RuleClass::South) {
         return 0;
     }
@@ -263,6 +312,7 @@ pub fn run(ctx: &Ctx) -> Report {
         "time_negative",
         "time_beyond_24h",
         "tie_rule_(coincident_instants)",
+        "degenerate_rule_(S=E_every_year)",
         "rule_instant_in_a_neighbouring_utc_year",
         "week_5_of_february",
         "year_near_i32_extreme",
